@@ -53,6 +53,14 @@ RDs(t) ==
     [] t = T_A -> { <<1, 2, 3, 4>>, <<1, 2, 3>> }
     [] t = 65280 -> { <<>>, <<7, 7>> }
     [] OTHER -> { <<1, 97>> }
+\* well-formed RDATA per type, to be padded with junk
+RDsJunk(t) ==
+  CASE t \in {T_CNAME, T_NS, T_PTR} -> { <<0>>, <<192, 12>>, <<1, 97, 192, 12>> }
+    [] t = T_MX -> { <<0, 10, 0>>, <<0, 10, 192, 12>> }
+    [] t = T_SOA -> { <<0, 0>> \o Zero20, <<192, 12, 1, 97, 0>> \o Zero20 }
+    [] t = T_OPT -> { <<>>, <<0, 10, 0, 1, 7>> }
+    [] t = T_A -> { <<1, 2, 3, 4>> }
+    [] OTHER -> { <<7, 7>> }
 RTypes == {T_CNAME, T_NS, T_MX, T_SOA, T_OPT, T_A, 65280, 16}
 Deltas(t) == IF t \in {T_NS, T_PTR, 16} THEN {0} ELSE {0, 1, -1}
 
@@ -111,6 +119,26 @@ SvcParamsAlts == { <<>>, <<0, 1, 0, 0>>, <<0, 1, 0, 3, 2, 104, 50>>, <<0, 1, 0, 
          <<0, 0, 0, 1, 0>>, <<0, 0, 0, 0>>, <<0, 2, 0, 0, 0, 1, 0, 0>>,
          <<0, 3, 0, 2, 1, 187, 0, 3, 0, 2, 1, 187>>, <<0, 4, 0, 3, 1, 2, 3>>, <<0, 4, 0, 0>>,
          <<0, 6, 0, 15>> \o F(15, 1), <<0, 1, 0>>, <<0, 5, 0, 1, 7>>, <<255, 255, 0, 0>> }
+SvcLens == {0, 1, 2, 3, 4, 5, 7, 8, 9, 12, 15, 16, 17, 20, 31, 32, 33}
+
+\* EDNS options: every option type of src/base/opt with data lengths around
+\* its framing, and the client-subnet grid family x source prefix x scope
+\* prefix x address octets (one fewer than, exactly, one more than needed)
+OptLens == {0, 1, 2, 3, 4, 5, 7, 8, 9, 15, 16, 17, 24, 32, 33, 40, 41}
+OptCodes == {3, 5, 6, 7, 9, 10, 11, 12, 13, 14, 15, 65001}
+OneOpt(code, data) == EncU16(code) \o EncU16(Len(data)) \o data
+PrefixOctets(p) == (p + 7) \div 8
+SubnetData == UNION { { EncU16(fam) \o <<src, scope>> \o F(n, 10) :
+                          fam \in {0, 1, 2, 3}, scope \in {0, 33},
+                          n \in {Max(PrefixOctets(src) - 1, 0), PrefixOctets(src), PrefixOctets(src) + 1} }
+                      : src \in {0, 1, 24, 32, 33, 64, 128, 129, 255} }
+             \cup { <<>>, <<0>>, <<0, 1>>, <<0, 1, 24>> }
+OptionAlts == { OneOpt(8, d) : d \in SubnetData }
+              \cup { OneOpt(c, F(l, 1)) : c \in OptCodes, l \in OptLens }
+              \cup { OneOpt(13, <<1, 97, 0>>), OneOpt(13, <<192, 12>>), OneOpt(13, <<1, 97>>),
+                     OneOpt(15, <<0, 1, 104, 105>>), OneOpt(15, <<0, 1, 255, 254>>),
+                     OneOpt(8, <<0, 1, 24, 0, 10, 1, 2>>) \o OneOpt(10, F(8, 1)) }
+
 TsigBody(maclen, mac, otherlen, other) ==
   <<0>> \o F(6, 0) \o <<1, 44>> \o EncU16(maclen) \o mac \o <<0, 0, 0, 0>> \o EncU16(otherlen) \o other
 
@@ -124,6 +152,9 @@ HostileRD(t) ==
     [] t = 13 -> { <<1, 97, 1, 98>>, <<1, 97>>, <<1, 97, 5, 98>>, <<0, 0>>, <<1, 97, 1, 98, 7>>, <<>> }
     [] t \in {64, 65} -> {<<0, 1>> \o tg \o pa : tg \in {<<0>>, <<192, 12>>}, pa \in SvcParamsAlts}
                           \cup {<<0, 0, 0>>, <<0, 0, 0, 0, 1, 0, 0>>, <<0>>}
+                          \* every known key (and one unknown) with values of length 0, 1, n-1, n,
+                          \* n+1, 2n-1, 2n, 2n+1 for the element sizes 2, 4 and 16
+                          \cup {<<0, 1, 0>> \o EncU16(k) \o EncU16(l) \o F(l, 1) : k \in (0..9) \cup {4096}, l \in SvcLens}
     [] t = 45 -> { <<10, 0, 2>>, <<10, 0, 2, 1, 2>>, <<10, 1, 2, 1, 2, 3, 4>>, <<10, 1, 2, 1, 2>>,
                    <<10, 2, 2>> \o F(16, 1), <<10, 2, 2, 1>>, <<10, 3, 2, 0>>, <<10, 3, 2, 192, 12>>,
                    <<10, 3, 2, 1, 97>>, <<10, 4, 2>>, <<10, 255, 2, 1>>, <<10>>, <<>> }
@@ -141,6 +172,17 @@ HostileRD(t) ==
     [] t \in {52, 44, 61, 10} -> { <<>>, <<1>>, <<1, 1, 1, 7>>, <<1, 1>> }
     [] t \in {39, 17, 14} -> { <<0>>, <<192, 12>>, <<1, 97, 0, 7>>, <<0, 0>>, <<192, 12, 0>>, <<192, 12, 192, 12>>, <<64>>, <<>> }
     [] OTHER -> { <<>> }
+\* a well-formed RDATA per type the new API knows, to be padded / cut (family J)
+JTemplates == { <<1, <<1, 2, 3, 4>>>>, <<28, F(16, 1)>>, <<13, <<1, 97, 1, 98>>>>, <<16, <<1, 97>>>>,
+                <<17, <<0, 0>>>>, <<17, <<192, 12, 0>>>>, <<33, <<0, 1, 0, 1, 0, 80, 0>>>>, <<39, <<0>>>>,
+                <<39, <<1, 98, 0>>>>, <<43, <<0, 1, 8, 2, 7, 7>>>>, <<46, F(18, 0) \o <<0, 5, 5>>>>,
+                <<47, <<0, 0, 1, 64>>>>, <<47, <<1, 98, 0, 0, 1, 64>>>>, <<48, <<1, 1, 3, 8, 1, 2>>>>,
+                <<50, <<1, 0, 0, 0, 0, 1, 7, 0, 1, 64>>>>, <<51, <<1, 0, 0, 0, 0>>>>,
+                <<51, <<1, 0, 0, 0, 1, 171>>>>, <<63, <<0, 0, 0, 1, 1, 1>> \o F(48, 7)>>,
+                <<2, <<1, 98, 0>>>>, <<5, <<192, 12>>>>, <<12, <<1, 98, 192, 12>>>>, <<15, <<0, 10, 1, 98, 0>>>>,
+                <<6, <<1, 98, 0, 192, 12>> \o Zero20>>, <<41, <<0, 10, 0, 1, 7>>>> }
+JVariants(rd) == { rd, rd \o <<7>>, rd \o <<7, 7, 7, 7>>, rd \o <<0>>, SubSeq(rd, 1, Len(rd) - 1) }
+
 TTypes == {47, 50, 51, 16, 13, 64, 65, 45, 250, 46, 35, 257, 48, 43, 33, 63, 52, 44, 61, 10, 39, 17, 14}
 HT == { <<32768, 1, 1, 0, 0>>, <<32768, 1, 0, 0, 1>> }
 
@@ -160,6 +202,8 @@ Phase1 ==
      \/ sel' = <<"S">>
      \/ \E qs \in LQShapes, sec \in 1..3 : sel' = <<"L", qs, sec>>
      \/ \E h \in HT, t \in TTypes : sel' = <<"T", h, t>>
+     \/ \E k \in 0..3 : sel' = <<"O", k>>
+     \/ \E h \in HT : sel' = <<"J", h>>
 
 Finish(msg) == ph' = 2 /\ m' = msg /\ nw' = NWInit(msg) /\ UNCHANGED sel
 
@@ -171,8 +215,11 @@ Phase2 ==
         /\ \E b \in NC, c \in NC, d \in NC :
               Finish(Hdr(<<0, 2, 0, 0, 0>>) \o sel[2] \o b \o <<0, 1, 0, 1>> \o c \o d \o <<0, 1, 0, 1>>)
      \/ /\ sel[1] = "R"
-        /\ \E t \in RTypes : \E rd \in RDs(t), dl \in Deltas(t) :
-              Finish(Hdr(sel[2]) \o sel[3] \o Rec(sel[4], t, rd, dl))
+        /\ \/ \E t \in RTypes : \E rd \in RDs(t), dl \in Deltas(t) :
+                 Finish(Hdr(sel[2]) \o sel[3] \o Rec(sel[4], t, rd, dl))
+           \* RDATA followed by 1 or 4 octets that RDLENGTH covers (trailing junk)
+           \/ \E t \in RTypes \cup {T_PTR} : \E rd \in RDsJunk(t), j \in {<<7>>, <<7, 7, 7, 7>>} :
+                 Finish(Hdr(sel[2]) \o sel[3] \o Rec(sel[4], t, rd \o j, 0))
      \/ /\ sel[1] = "RR"
         /\ \E t1 \in Targets2, o2 \in Owners2, t2 \in Targets2 :
               Finish(Hdr(sel[2]) \o <<1, 97, 0, 0, 1, 0, 1>>
@@ -183,6 +230,12 @@ Phase2 ==
         /\ \E o \in LOwners :
               /\ ph' = 2 /\ m' = LMsg(sel[2], sel[3], o) /\ nw' = NWInit(m')
               /\ sel' = <<"Ldone", LStarts(sel[2], sel[3])>>
+     \/ /\ sel[1] = "O"          \* an OPT record with one (or two) options from the grid
+        /\ \E o \in {x \in OptionAlts : Len(x) % 4 = sel[2]} :
+              Finish(Hdr(<<32768, 1, 0, 0, 1>>) \o <<1, 97, 0, 0, 1, 0, 1>> \o Rec(<<0>>, T_OPT, o, 0))
+     \/ /\ sel[1] = "J"          \* RDLENGTH covering exact / padded / cut RDATA, every type of the new API
+        /\ \E tp \in JTemplates : \E rd \in JVariants(tp[2]) :
+              Finish(Hdr(sel[2]) \o <<1, 97, 0, 0, 1, 0, 1>> \o Rec(<<192, 12>>, tp[1], rd, 0))
      \/ /\ sel[1] = "T"
         /\ \E rd \in HostileRD(sel[3]) :
               Finish(Hdr(sel[2]) \o <<1, 97, 0, 0, 1, 0, 1>> \o Rec(<<192, 12>>, sel[3], rd, 0))
